@@ -5,6 +5,7 @@ import PyTrie.Model.Iter
 import PyTrie.Model.HexRaw
 import PyTrie.Model.HexRead
 import PyTrie.Model.IterRaw
+import PyTrie.Model.Walk
 /-! Line-protocol front end for the hexary-trie model (commands `hx.*`). One reply line per
     command. Byte strings are lower-case hex (`-` = empty), nibble paths one hex digit per nibble
     (`-` = empty), the batch trie is addressed as `b`, other tries by number. -/
@@ -18,6 +19,7 @@ structure St where
   w : World := {}
   regs : Array Node := #[]       -- node registers for traverse_from
   last : Option Node := none     -- raw node (real or simulated) returned by the latest traversal
+  walk : CState := ⟨Fog.init, [], []⟩   -- state of the concrete fog walk (`Model/Walk.lean`)
   deriving Inhabited
 
 def pathStr (p : Path) : String :=
@@ -189,6 +191,37 @@ def step (st : St) (cmd : String) (args : List String) : St × String :=
     match st.last with
     | some n => ({ st with regs := st.regs.push n }, toString st.regs.size)
     | none => bad
+  -- the concrete fog walk of `Model/Walk.lean`, one whole step at a time
+  | "wnew", [] => ({ st with walk := ⟨Fog.init, [], []⟩ }, "ok")
+  | "wcnew", [] => ({ st with walk := { st.walk with cache := [] } }, "ok")
+  | "wcdel", [p] =>
+    match parsePath p with
+    | some p => ({ st with walk := { st.walk with cache := Fog.Frontier.delete st.walk.cache p } }, "ok")
+    | none => bad
+  | "wstep", [tg, p, useCache] =>
+    match parseTarget tg, parsePath p with
+    | some tg, some p =>
+      let T := w.trieOf tg
+      let cs : CState := if useCache == "1" then st.walk else { st.walk with cache := [] }
+      -- a stale cached parent may have been pruned from the database: the traversal raises and nothing changes
+      let miss := match Fog.Frontier.get cs.cache p with
+        | some (parent, seg) => travReads w tg none parent seg
+        | none => travReads w tg (some T.root) T.tree p
+      match miss with
+      | some e => (st, fmtExn e)
+      | none =>
+        match cstep T.tree cs p with
+        | none => (st, "none")
+        | some cs' =>
+          let cs'' : CState := if useCache == "1" then cs' else { cs' with cache := st.walk.cache }
+          let showF (f : Fog.Fog) := if f.isEmpty then "-" else ",".intercalate (f.map fun q => if q.isEmpty then "_" else pathStr q)
+          let newMet := if cs'.met.length > cs.met.length then
+              match cs'.met.head? with
+              | some (k, v) => s!"{pathStr k}={toHex v}"
+              | none => "-"
+            else "-"
+          ({ st with walk := cs'' }, s!"fog {showF cs'.fog} met {newMet}")
+    | _, _ => bad
   | "proof", [tg, k] =>
     match parseTarget tg, ofHex k with
     | some tg, some k =>
